@@ -110,7 +110,12 @@ def run_driver(drv, jobs, wd, res, tag):
         if failures >= 6:
             res.cov.setdefault("notes", []).append("%s: driver stopped after %d failing jobs; %d jobs not run" % (tag, failures, len(jobs) - pos))
             break
-        p = subprocess.run([drv, "coop"], input="\n".join(jobs[pos:]) + "\n", capture_output=True, text=True, timeout=3000)
+        try:
+            p = subprocess.run([drv, "coop"], input="\n".join(jobs[pos:]) + "\n", capture_output=True, text=True, timeout=3000)
+        except subprocess.TimeoutExpired:
+            res.violations.append(("flydrv coop did not finish within 3000 s (%s, %d jobs from %r)" % (tag, len(jobs) - pos, jobs[pos]),
+                                   _save(wd, "%s_hang_%d" % (tag, pos), jobs[pos:])))
+            break
         cur = None; n = 0
         for line in p.stdout.split("\n"):
             if line.startswith("J "):
@@ -237,9 +242,17 @@ def random_schedules(res, wd, drv, n, histories):
     if jobs:
         res.sample({"random schedule job": jobs[0]})
 
-def stress(res, wd, drv, njobs, ops, histories, rounds=1):
+def stress(res, wd, drv, njobs, ops, histories, rounds=1, timeout=600):
     for rd in range(rounds):
-        p = subprocess.run([drv, "stress", str(seed() * 1000 + rd), str(njobs), str(ops)], capture_output=True, text=True, timeout=3000)
+        args = [drv, "stress", str(seed() * 1000 + rd), str(njobs), str(ops)]
+        try:
+            p = subprocess.run(args, capture_output=True, text=True, timeout=timeout)
+        except subprocess.TimeoutExpired as ex:
+            out = ex.stdout.decode("utf-8", "replace") if isinstance(ex.stdout, bytes) else (ex.stdout or "")
+            last = [x for x in out.split("\n") if x.startswith("J ")]
+            res.violations.append(("real threads hung: flydrv %s did not finish within %d s (deadlock or livelock in the tables); last job started: %r"
+                                   % (" ".join(args[1:]), timeout, last[-1] if last else None), _save(wd, "stress_hang_%d" % rd, [" ".join(args)] + last[-1:])))
+            break
         cur = None; desc = None
         for line in p.stdout.split("\n"):
             if line.startswith("J "):
@@ -373,7 +386,7 @@ def run(tier, replay_path=None):
         random_schedules(res, wd, drv, 1000 if quick else 20000, histories)
     phase("random_schedules", t1); t1 = time.time()
     if "stress" in parts:
-        stress(res, wd, drv, 30 if quick else 80, 100 if quick else 300, histories, rounds=1 if quick else 6)
+        stress(res, wd, drv, 30 if quick else 80, 100 if quick else 300, histories, rounds=1 if quick else 6, timeout=600 if quick else 2400)
     phase("stress", t1); t1 = time.time()
     for t in ths[:4]:
         t.join()
